@@ -75,6 +75,16 @@ def run(ctx):
         ind = U.render(s, parameters={p: repr(rng.choice([0.5, 1.5, 2.0, 0.25])) for p in s["params"]})
         states = [(rng.uniform(0, 1), [rng.uniform(0.5, 2.0) for _ in range(3)]) for _ in range(6)]
         ntasks.append({"fn": "sysimpl.run_numjac", "indict": ind, "states": states, "disable_analytic": k % 4 != 3, "timeout": 300})
+    # mixed systems whose Jacobian depends on an analytically solved (time-varying) variable; the Jacobian is
+    # requested at times in arbitrary order, interleaved with derivative evaluations at other times
+    MIXED = [{"dynamics": [{"expression": "g' = -g/2", "initial_value": "1"}, {"expression": "V' = -g*V + V**2/8 - V/4", "initial_value": "1/2"}]},
+             {"dynamics": [{"expression": "g'' = -g/4 - g'", "initial_values": {"g": "0", "g'": "1"}}, {"expression": "V' = g*(1 - V) - V**3/16", "initial_value": "1/4"}]}]
+    for k, ind in enumerate(MIXED[: (1 if quick else 2)] if False else MIXED):
+        states = []
+        for _ in range(8):
+            t_ = rng.uniform(0, 3)
+            states.append([t_, [rng.uniform(0.2, 1.5)], rng.choice([None, t_ + rng.uniform(0.2, 2.0), max(0.0, t_ - rng.uniform(0.1, 1.0))])])
+        ntasks.append({"fn": "sysimpl.run_numjac", "indict": ind, "states": states, "disable_analytic": False, "timeout": 300})
     res = C.run_tasks(tasks, timeout=40)
     nres = C.run_tasks(ntasks, timeout=300, stub=True)
     coq, info, probe_failures, corr_errors = [], [], [], []
